@@ -507,14 +507,12 @@ def _sqrt_sym(v):
             if math.isqrt(n) ** 2 == n and math.isqrt(d) ** 2 == d:
                 return EV.of(Fraction(math.isqrt(n), math.isqrt(d)))
     ex = cur()
-    key = ('sqrt', sv.get_id())
-    if key in ex.tags:
-        s = ex.tags[key]
-    else:
+
+    def make():
         _sqrt_n[0] += 1
-        s = z3.Real(f"sqrt!{_sqrt_n[0]}")
-        ex.axiom(z3.And(s >= 0, s * s == z3.If(sv >= 0, sv, 0)))
-        ex.tags[key] = s
+        sy = z3.Real(f"sqrt!{_sqrt_n[0]}")
+        return sy, [z3.And(sy >= 0, sy * sy == z3.If(sv >= 0, sv, 0))]
+    s = ex.define(('sqrt', sv.get_id()), make)
     neg = And(Not(v.inf), sv < 0)
     return EV(z3.If(_b(v.inf), z3.RealVal(1), s), And(v.inf, sv > 0), Or(v.nan, neg, And(v.inf, Not(sv > 0))))
 
@@ -655,3 +653,34 @@ class _Testing:
 
 
 testing = _Testing()
+
+
+def _is_int_typed(xs):
+    return len(xs) > 0 and _bi.all(isinstance(v, (bool, int)) or (isinstance(v, SV) and v.is_int()) or isinstance(v, SB) for v in xs)
+
+
+def full_like(x, val, dtype=None):
+    """numpy semantics: the result inherits the dtype of x - an integer-typed x truncates a float fill value"""
+    xs = _items(x)
+    if dtype is None and _is_int_typed(xs):
+        from . import pymodel
+        val = pymodel.int(val)
+    return Arr([val] * len(xs))
+
+
+def full(n, val, dtype=None):
+    return Arr([val] * _int(n))
+
+
+def empty(n, dtype=None):
+    return Arr([0.0] * _int(n))
+
+
+def count_nonzero(x):
+    acc = 0
+    for v in _items(x):
+        if isinstance(v, str):
+            raise NotImplementedError("count_nonzero on strings")
+        b = v if isinstance(v, (bool, SB)) else _sop(v, 0, '!=')
+        acc = _sop(acc, b, '+')
+    return acc
